@@ -554,6 +554,50 @@ public final class CryptoPrims {
         return new TupleValue(new Value[] { BoolValue.ValTrue, IntValue.gen(res[0].intValue()), tuple(be32(res[1])) });
     }
 
+    private static Value pointResult(final BigInteger[] jac) {
+        final BigInteger[] a = toAffine(jac);
+        if (a == null) {
+            return new TupleValue(new Value[] { BoolValue.ValFalse, TupleValue.EmptyTuple });
+        }
+        final byte[] out = new byte[33];
+        out[0] = (byte) (a[1].testBit(0) ? 3 : 2);
+        System.arraycopy(be32(a[0]), 0, out, 1, 32);
+        return new TupleValue(new Value[] { BoolValue.ValTrue, tuple(out) });
+    }
+
+    /** secp256k1_ec_pubkey_combine of two serialized public keys: <<ok, compressed 33 bytes>>; not ok if a key does not parse or the sum is infinity. */
+    public static Value PubKeyCombine(final Value pub1, final Value pub2) {
+        final BigInteger[] a = parsePubKey(bytes("PubKeyCombine", pub1));
+        final BigInteger[] b = parsePubKey(bytes("PubKeyCombine", pub2));
+        if (a == null || b == null) {
+            return new TupleValue(new Value[] { BoolValue.ValFalse, TupleValue.EmptyTuple });
+        }
+        return pointResult(jaddAffine(new BigInteger[] { a[0], a[1], BigInteger.ONE }, b));
+    }
+
+    /** secp256k1_ec_pubkey_tweak_mul: <<ok, compressed 33 bytes of t*P>>; not ok if the key does not parse or t is 0 or >= n. */
+    public static Value PubKeyTweakMul(final Value pub, final Value t32) {
+        final BigInteger[] a = parsePubKey(bytes("PubKeyTweakMul", pub));
+        final byte[] tb = bytes("PubKeyTweakMul", t32);
+        if (a == null || tb.length != 32) {
+            return new TupleValue(new Value[] { BoolValue.ValFalse, TupleValue.EmptyTuple });
+        }
+        final BigInteger t = uint(tb, 0, 32);
+        if (t.signum() == 0 || t.compareTo(N) >= 0) {
+            return new TupleValue(new Value[] { BoolValue.ValFalse, TupleValue.EmptyTuple });
+        }
+        return pointResult(mulAdd(t, a, BigInteger.ZERO));
+    }
+
+    /** Parses a serialized public key: <<ok, compressed 33 bytes>> (so the x-only key is the tail and the parity the head). */
+    public static Value PubKeyParse(final Value pub) {
+        final BigInteger[] a = parsePubKey(bytes("PubKeyParse", pub));
+        if (a == null) {
+            return new TupleValue(new Value[] { BoolValue.ValFalse, TupleValue.EmptyTuple });
+        }
+        return pointResult(new BigInteger[] { a[0], a[1], BigInteger.ONE });
+    }
+
     public static Value XOnlyTweakAddCheck(final Value q32, final Value parity, final Value p32, final Value tweak32) {
         final byte[] q = bytes("XOnlyTweakAddCheck", q32);
         if (!(parity instanceof IntValue)) {
